@@ -25,6 +25,9 @@ def _names():
     for k in KINDS:
       for i in (1, 2):
         out.append("%s.%s%d" % (d, k.lower(), i))
+    # a third element of the two kinds that may contain themselves: chains of three (an ancestor that is not the parent)
+    for k in ("Div", "Span"):
+      out.append("%s.%s3" % (d, k.lower()))
     for r in REGION_IDS:
       out.append("%s.%s" % (d, r))
   for k in KINDS:
